@@ -71,4 +71,49 @@ class C18(E1Prop):
     def harnesses(self, tier):
         return [H("prop_C18_num_gcc", "prop_C18.cpp", shards=8),
                 H("prop_C18_num_clang", "prop_C18.cpp", shards=8, compiler="clang++"),
-                H("prop_C18_sizing", "prop_C18.cpp", shards=9, defines=["VF_C18_SIZING"], flags=core.SAN + ["-mbmi2"])]
+                H("prop_C18_sizing_bmi2", "prop_C18.cpp", shards=9, defines=["VF_C18_SIZING"], flags=core.SAN + ["-mbmi2"]),
+                H("prop_C18_sizing_nobmi2", "prop_C18.cpp", shards=9, defines=["VF_C18_SIZING"])]
+
+
+@prop("C14")
+class C14(E1Prop):
+    pid = "C14"
+    rule = ("row-major: strided<I^N, identity<size1>> for every extent vector up to B_N (every coordinate) and rapidcheck extents up to 2^(60/N) with "
+            "corner/centre/random coordinates, position compared with sum_k c_k prod_{l>k} N_l; Morton (BMI2 and portable, static calculate_index and "
+            "the layer over identity<size1>): every coordinate with <= b bits per axis, boundary bit patterns (single bits, 2^k-1, alternating masks) on "
+            "each axis against all-zero/all-one/alternating backgrounds up to 2^floor(64/N)-1, random masked 64-bit values, compared with a naive bit "
+            "interleave; Hilbert: every cell of the 2^k square for k=0..10, validity predicate (bijection onto [0,4^k), origin first, consecutive "
+            "positions edge-adjacent). non-trivial: extents pairwise different / a coordinate with a bit above bit 8 / k>=2; evaluations count "
+            "individual position comparisons")
+    min_eval = 100000
+    level_text = ("Generated-input search against the published curve definitions restated independently (formula, naive interleave, validity predicate); "
+                  "exhaustive for small bit-widths / extents and all Hilbert orders up to 10, boundary-biased sampling beyond.")
+
+    def harnesses(self, tier):
+        # two builds: with -mbmi2 (pdep path + the portable loop selected by use_bmi2=false) and without
+        # (the portable loop of the #else branch, which is what the suite's own build compiles)
+        return [H("prop_C14_bmi2", "prop_C14.cpp", shards=8, flags=core.SAN + ["-mbmi2"]),
+                H("prop_C14_nobmi2", "prop_C14.cpp", shards=8)]
+
+
+@prop("C01")
+class C01(E1Prop):
+    pid = "C01"
+    rule = ("cases = (layer in {row-major, Morton BMI2, Morton portable [both the use_bmi2=false loop of a -mbmi2 build and the #else loop of a plain build], "
+            "Hilbert}, N in 1..4 (Hilbert 2), coordinate scalar in {size_t, unsigned, int}, (M,T) rotating over float/double x 1..4, extent vector, "
+            "construction route {from extents | by conversion from a row-major field | from a parameter pack with the documented storage length}, "
+            "write sequence of (coordinate, raw bit patterns)); every extent vector up to B_N is enumerated, larger ones (up to 300 per axis / 32 MiB "
+            "of curve storage, boundary-biased, one long axis) come from rapidcheck. Oracles: positions over identity<size1> pairwise distinct and "
+            "below the allocated length read back from the field; value-initialised after construction; distinct fill read back; model N-D array "
+            "compared bit-for-bit after writes (after every write when <= 512 cells); ASan and the library's assertions live. "
+            "non-trivial = shape not all ones and, for curves, not an equal power-of-two cube; distinct by (instantiation, extents, route, writes)")
+    min_eval = 3000
+    level_text = ("Generated-input search against a plain N-D array model with complete enumeration of all small extent vectors for every layer x N x "
+                  "coordinate type, sampled beyond; memory safety judged by ASan with the library's bounds assertions enabled.")
+
+    def harnesses(self, tier):
+        return [H("prop_C01_strided", "prop_C01.cpp", shards=7, defines=["VF_GROUP=0"]),
+                H("prop_C01_morton_bmi2", "prop_C01.cpp", shards=7, defines=["VF_GROUP=1"], flags=core.SAN + ["-mbmi2"]),
+                H("prop_C01_morton_portable", "prop_C01.cpp", shards=7, defines=["VF_GROUP=2"], flags=core.SAN + ["-mbmi2"]),
+                H("prop_C01_morton_portable_else", "prop_C01.cpp", shards=7, defines=["VF_GROUP=2"]),
+                H("prop_C01_hilbert", "prop_C01.cpp", shards=4, defines=["VF_GROUP=3"])]
